@@ -698,7 +698,7 @@ func (tb *TermBuilder) term1(v ssa.Value, depth int) *Term {
 			}
 			return &Term{Op: "tuple", Name: fname(g), Args: comps}
 		}
-		if g := v.Call.StaticCallee(); g != nil && !tb.NoInline && tb.inlineDepth < 4 && inlinable(g) {
+		if g := v.Call.StaticCallee(); g != nil && !tb.NoInline && tb.inlineDepth < 4 && inlinable(g) && pkgOf(g) == pkgOf(tb.F) {
 			sub := newTB(g)
 			sub.inlineDepth = tb.inlineDepth + 1
 			rt := sub.T(returnsOf(g)[0].Results[0])
